@@ -118,6 +118,9 @@ def asan_env(env=None):
     env['LD_PRELOAD'] = LIBASAN
     env['ASAN_OPTIONS'] = 'detect_leaks=0:abort_on_error=1:halt_on_error=1:allocator_may_return_null=1'
     env['UBSAN_OPTIONS'] = 'halt_on_error=1:abort_on_error=1:print_stacktrace=1'
+    # CPython's small-object allocator hides object lifetimes from ASan; with the system allocator a mishandled
+    # reference (use after free / double free of a Python object by the engine) is reported by ASan itself
+    env['PYTHONMALLOC'] = 'malloc'
     return env
 
 
